@@ -20,7 +20,7 @@ CFG = {
                    "GeoProofs/Lemmas/C02YAreal.lean", "GeoProofs/Lemmas/C02YPairs.lean", "GeoProofs/Lemmas/C02YMask.lean",
                    "GeoProofs/Lemmas/C02YContains.lean", "GeoProofs/Lemmas/C02YCoords.lean", "GeoProofs/Lemmas/C02YPoint.lean",
                    "GeoProofs/Lemmas/C02YPointSpec.lean", "GeoProofs/Lemmas/C02YAvoid.lean", "GeoProofs/Lemmas/C02YLinear.lean",
-                   "GeoProofs/Lemmas/C02YRectWind.lean", "GeoProofs/Lemmas/C02YRect.lean"],
+                   "GeoProofs/Lemmas/C02YRectWind.lean", "GeoProofs/Lemmas/C02YRect.lean", "GeoProofs/Lemmas/C02YLoop.lean"],
     "rule": "2/3 of the cases: ordered pairs (A, B) over all 10 types (both through the Geometry enum) from one shared grid, B drawn independently or "
             "from A's own vertices / edge midpoints / edges (so containment is frequent): intersects(A,B), intersects(B,A), contains(A,B), is_within(A,B); "
             "1/3: coordinate_position(G, p) with p a vertex, an edge midpoint or a half-grid point. Three-way comparison per case: implementation, "
@@ -112,8 +112,9 @@ MANIFEST = {
             "(c) Rect x Rect (containsM_rect_rect; positive width and height, K7 excluded): both operands areal, the face samples m +- delta*n are located exactly - winding number of "
             "Rect::to_polygon about a point perturbed by the symbolic infinitesimal (rect_windingE) - so a face sample inside the inner Rect is inside the outer one and the sample above the "
             "inner bottom edge is interior to both. (d) LineString x Line: the specification side for ANY line string (isContains_lineString_line: mask <=> every point of the segment is on the "
-            "line string), so the equality is reduced to that statement about the two-pass truncation loop (containsM_lineString_line_partial). Open (correspondence only): LineString x Line and "
-            "LineString x LineString (loop invariant of cutStep), Rect x Polygon. "
+            "line string), so the equality is reduced to that statement about the two-pass truncation loop (containsM_lineString_line_partial), and one half of it is proved: the loop has no false "
+            "positive (containsM_lineString_line_sound; invariant of cutStep: every point of the query is on the line string or on what is left of the query). Open (correspondence only): the converse "
+            "for LineString x Line (two passes always suffice on a simple line string), LineString x LineString, Rect x Polygon. "
             "Each generated case is compared three ways (implementation = model, implementation = specification). "
             "Translator ties (TRAN): the accumulator model is no longer only hand-written — ringPos_eq_source (coord_pos_relative_to_ring whole: prologue, "
             "winding loop with early return, final test), calculateCoordinatePosition_eq_source (the calculate_coordinate_position bodies of Coord, Point, "
